@@ -247,6 +247,23 @@ def _shared_worker(seed):
                     found.append(f"deme {deme.id} (metaepoch {tree.metaepoch_count}): the generator answered {len(got)} individuals {got[:2]}… but the clustering of its current population has the seeds {want[:2]}… ({len(want)})")
             return out
 
+    class Provenance:
+        """pass-through around the mechanism's last tree filter: what comes out of the chain is what the tree
+        sprouts from — every seed must be an individual of its parent's current population (C07)"""
+
+        def __init__(self, inner):
+            self.inner = inner
+
+        def __call__(self, candidates, tree):
+            out = self.inner(candidates, tree)
+            for deme, dc in out.items():
+                pop = {(tuple(float(t) for t in i.genome), float(i.fitness)) for i in deme.current_population}
+                for ind in dc.individuals:
+                    if (tuple(float(t) for t in ind.genome), float(ind.fitness)) not in pop and not found7:
+                        found7.append(f"deme {deme.id} (metaepoch {tree.metaepoch_count}) is about to sprout from {[float(t) for t in ind.genome]}, which is not an individual of its current population")
+            return out
+
+    found7 = []
     try:
         with run_limit():
             trees = []
@@ -256,6 +273,8 @@ def _shared_worker(seed):
                 if shared is None:
                     shared = o["sm"]
                     shared.candidates_generator = Checking(shared.candidates_generator)
+                    if shared.tree_filter_chain:
+                        shared.tree_filter_chain[-1] = Provenance(shared.tree_filter_chain[-1])
                 opts = {"random_seed": spec["seed"], "hibernation": spec["hibernation"]}
                 trees.append(T.DemeTree(TreeConfig(o["levels"], o["gsc"], shared, options=opts, config_class_to_deme_class=o["custom"])))
             for _ in range(6):
@@ -266,10 +285,10 @@ def _shared_worker(seed):
         return {"status": "crash", "detail": f"run did not terminate: {e}"}
     except Exception as e:  # noqa: BLE001
         return {"status": "env" if is_env_crash(e) else "crash", "detail": f"{type(e).__name__}: {e}"}
-    return {"status": "ok", "found": found, "calls": calls[0]}
+    return {"status": "ok", "found": found, "found7": found7, "calls": calls[0]}
 
 
-def shared_generator(ctx, n, salt):
+def shared_generator(ctx, n, salt, only="C15/"):
     from ..common import pmap
 
     sl = Slice("one NBC generator object serving two trees stepped side by side (every answer = clustering of that deme's current population)")
@@ -289,8 +308,11 @@ def shared_generator(ctx, n, salt):
         sl.count("generator-answers-checked", r["calls"])
         for m in r["found"]:
             sl.violations.append({"signature": "C15/answer-for-another-population", "detail": m, "replay": {"seed": sd}})
+        for m in r.get("found7", []):
+            sl.violations.append({"signature": "C07/seed-not-from-the-parents-population(shared mechanism)", "detail": m, "replay": {"seed": sd}})
     if seeds:
         sl.sample({"seed": seeds[0]})
+    sl.violations = [v for v in sl.violations if v["signature"].startswith(only) or v["signature"].endswith("run-crashed")]
     return sl
 
 
